@@ -250,6 +250,7 @@ impl RunCtx {
     }
 
     pub fn begin_with_timeout(&mut self, id: &str, t: Duration) {
+        crate::session::ambient_jitter(None);
         let rec = json!({"kind": "start", "case": id});
         {
             let mut f = self.out.lock().unwrap();
